@@ -224,6 +224,41 @@ def gen_array_elems(t, n, cs, mode, affine):
     return el
 
 
+def array_elems(a, t, n, cs, mode, affine):
+    """elements of one array argument: embedded in the plan (replay files carry the concrete values, so that they do
+    not depend on the content generator of the /verif commit that wrote them) or generated from the content seed"""
+    emb = a.get("elems")
+    if emb is not None and len(emb) == n:
+        et = PT.ARRAYS[t]
+        key = ("emb", id(emb))
+        el = _ELEMS.get(key)
+        if el is None:
+            el = [et.make(list(v)) for v in emb]
+            _ELEMS[key] = el
+        return el
+    return gen_array_elems(t, n, cs, mode, affine)
+
+
+def embed_contents(plan):
+    """copy of the plan with the concrete element values of every array argument written out"""
+    import copy
+    p2 = copy.deepcopy(plan)
+    mode, affine = plan["mode"], plan.get("affine")
+    for i, a in enumerate(p2["args"]):
+        t = a["t"]
+        if not PT.is_array(t) or a.get("kind") == "alias":
+            continue
+        n = a["n"]
+        if a["kind"] == "masked":
+            n = a["n"] + a["extra"]
+        elif a["kind"] == "unmasked":
+            a0 = p2["args"][0]
+            n = a0["n"] + a0.get("extra", 0) + a.get("um_extra", 0)
+        et = PT.ARRAYS[t]
+        a["elems"] = [list(et.flat(x)) for x in gen_array_elems(t, n, a["cs"], mode, affine)]
+    return p2
+
+
 class World:
     """objects built from a plan: call arguments + every array whose post-state matters"""
 
@@ -254,7 +289,7 @@ class World:
                 pos = list(range(total))
                 Rng(cs ^ 0x5bd1e995).shuffle(pos)
                 pos = sorted(pos[:n])
-                under = PT.make_array(t, gen_array_elems(t, total, cs, mode, affine))
+                under = PT.make_array(t, array_elems(a, t, total, cs, mode, affine))
                 mask = imath.IntArray(total)
                 for p in pos:
                     mask[p] = 1
@@ -271,18 +306,18 @@ class World:
                     pos = list(range(big))
                     Rng(cs ^ 0x2545F491).shuffle(pos)
                     pos = sorted(pos[:total])
-                    under = PT.make_array(t, gen_array_elems(t, big, cs, mode, affine))
+                    under = PT.make_array(t, array_elems(a, t, big, cs, mode, affine))
                     mask = imath.IntArray(big)
                     for p in pos:
                         mask[p] = 1
                     arr = under[mask]
                     self.tracked.append(("arg%d.underlying" % i, t, under))
                 else:
-                    arr = PT.make_array(t, gen_array_elems(t, total, cs, mode, affine))
+                    arr = PT.make_array(t, array_elems(a, t, total, cs, mode, affine))
                     self.tracked.append(("arg%d" % i, t, arr))
                 self.args.append(arr)
             else:
-                arr = PT.make_array(t, gen_array_elems(t, n, cs, mode, affine))
+                arr = PT.make_array(t, array_elems(a, t, n, cs, mode, affine))
                 if k == "readonly":
                     arr.makeReadOnly()
                 self.tracked.append(("arg%d" % i, t, arr))
@@ -805,6 +840,10 @@ if __name__ == "__main__":
         res = execute(plan)
         print("RESULT " + json.dumps({"verdict": res["verdict"], "signature": res["signature"], "detail": res["detail"],
                                       "trace": res.get("trace"), "hash": res.get("hash")}), flush=True)
+    elif sys.argv[1] == "--embed":
+        with open(sys.argv[2]) as f:
+            doc = json.load(f)
+        print("EMBEDDED " + json.dumps(embed_contents(doc["plan"])))
     elif sys.argv[1] == "--gen":
         seed = mix(int(sys.argv[2]), 20, int(sys.argv[3]))
         print(json.dumps(gen_plan(seed, int(sys.argv[3]))))
